@@ -62,3 +62,10 @@ package openapi3
 // Per-call objects of this package that are not part of the shared document: their components are
 // outside the "all(openapi3)" frame class.
 //@ class other openapi3.SchemaError openapi3.schemaValidationSettings openapi3.MultiError
+
+// (C05) the declared type list of a schema
+//@ func (*Types).Slice
+//@   modifies nothing
+//@   ensures types == nil ==> len(result) == 0
+//@   ensures types != nil ==> same(result, *types)
+//@   tag C05
